@@ -273,9 +273,9 @@ def run_guard(funcs, o, tier):
                 if mode == "before_call" and not any(b.kind == "call" and re.search(site["target"], b.call["callee"]) for b in f.blocks.values()):
                     continue
                 bodies.append(f)
-        if len(bodies) != site.get("expect", 1):
+        if ("expect" in site and len(bodies) != site["expect"]) or len(bodies) < site.get("expect_min", 1):
             verdict = "inconclusive" if verdict != "violated" else verdict
-            reason = "guard site %r resolves to %d bodies (expected %d)" % (site["body"], len(bodies), site.get("expect", 1))
+            reason = "guard site %r resolves to %d bodies (expected %s)" % (site["body"], len(bodies), site.get("expect", ">= %d" % site.get("expect_min", 1)))
             continue
         for f in bodies:
             ex = BVX.Exec(funcs, lenient=True, subject=(spec["subject"], "subj"), target=site.get("target"))
